@@ -18,6 +18,7 @@ From Verif.Eco.Golang Require Entry.
 From Verif.Eco.Conan Require Entry.
 From Verif.Eco.Npm Require Entry.
 From Verif.Eco.Alpm Require Entry.
+From Verif.Eco.Composer Require Entry.
 
 Definition ecosystems : list eco := [
   Cran.Entry.entry;
@@ -36,5 +37,6 @@ Definition ecosystems : list eco := [
   Golang.Entry.entry;
   Conan.Entry.entry;
   Npm.Entry.entry;
-  Alpm.Entry.entry
+  Alpm.Entry.entry;
+  Composer.Entry.entry
 ].
